@@ -82,10 +82,12 @@ def applyCommits (s : Store) (cs : List Commit) : Store := cs.foldl (fun s c => 
     crash, in order, `inflight` = at most one commit that was executing.
     A post-crash store is the image of a prefix of `cs ++ inflight` that contains
     at least everything up to and including the last SYNCED returned commit
+    (`lastSynced cs` = its 1-based position, 0 if none)
     (unsynced returned commits may be lost, together with everything after them
     — Pebble's WAL is a log). -/
-def lastSynced (cs : List Commit) : Nat :=
-  (cs.zipIdx.foldl (fun acc (c, i) => if c.sync then i + 1 else acc) 0)
+def lastSynced : List Commit → Nat
+  | [] => 0
+  | c :: cs => if lastSynced cs > 0 then lastSynced cs + 1 else if c.sync then 1 else 0
 
 def CrashState (s0 : Store) (cs inflight : List Commit) (s : Store) : Prop :=
   ∃ k, lastSynced cs ≤ k ∧ k ≤ (cs ++ inflight).length ∧ s = applyCommits s0 ((cs ++ inflight).take k)
